@@ -123,3 +123,14 @@ Theorem one_time_step_per_iteration : forall (inp : inputs) (s : istate),
   i_iter (run_iteration documented_order inp s) = S (i_iter s) /\ i_steps (run_iteration documented_order inp s) = S (i_steps s).
 Proof. exact iteration_counters. Qed.
 Print Assumptions one_time_step_per_iteration.
+
+(* save_mesh as the source has it: the target file number is regenerated from solver::save_mesh (Iteration_gen.v) and the
+   model's save_mesh is, syntactically, "catch up with that target" *)
+Theorem save_mesh_is_what_the_source_says : forall (T C : Type) (N : Num T) (floorZ : T -> Z) (Sp : T) (s : st (T:=T) (C:=C)),
+  save_mesh N floorZ Sp s =
+    let nb := file_target_gen N floorZ (s_time s) Sp in
+    if (s_file s <? nb)%Z
+    then (mkst (s_time s) (s_iter s) nb (s_pop s), save_upto (Z.to_nat (nb - s_file s)) (s_file s) (s_pop s))
+    else (s, []).
+Proof. intros; reflexivity. Qed.
+Print Assumptions save_mesh_is_what_the_source_says.
